@@ -91,7 +91,8 @@ theorem c_dot (T : Table) (B : Rat) (Q : List Rat) (t : Rat) (hQ : Q.length = T.
 /-- with weights summing to one, the `A_ub` row sum is the constraint violation of the mixture -/
 theorem row_sum_eq_viol (T : Table) (Q : List Rat) (hQ : Q.length = T.nH) (hs : Q.sum = 1) (j : Nat) :
     ∑ i ∈ range T.nH, (T.gam j i - T.c j) * vec Q i = viol T (vec Q) j := by
-  unfold viol gamQ
+  rw [viol_def]
+  unfold gamQ
   rw [sumTo_eq]
   have h1 : ∑ i ∈ range T.nH, (T.gam j i - T.c j) * vec Q i
       = ∑ i ∈ range T.nH, vec Q i * T.gam j i - T.c j * ∑ i ∈ range T.nH, vec Q i := by
@@ -209,7 +210,7 @@ theorem foldMax_mem (f : Nat → Rat) : ∀ (l : List Nat) (init : Rat),
     · right; exact ⟨j, by simp [hj], h⟩
 
 theorem maxViol_attained (T : Table) (Q : Nat → Rat) (h : 0 < T.nC) : ∃ j < T.nC, maxViol T Q = viol T Q j := by
-  unfold maxViol
+  rw [maxViol_def]
   rcases foldMax_mem (viol T Q) (List.range T.nC) (viol T Q 0) with h1 | ⟨j, hj, h1⟩
   · exact ⟨0, h, h1⟩
   · exact ⟨j, List.mem_range.mp hj, h1⟩
